@@ -917,7 +917,17 @@ def r_seg_lookup(rep, f):
 
 
 # ------------------------------------------------------------------------------------------ R-BDF-DENSE (C06, C07)
-def r_bdf_dense(rep, f):
+def _shape_unknown(rep, key, semantic_backup, why):
+    """the slot-by-slot comparison reads the two loops by shape; when they are written differently the obligation is carried by
+    R-BDF-INTERP, which evaluates writer and reader exactly for every order (interpolation through the last k+1 values forces
+    every slot): a note then, an INCONCLUSIVE only when that rule did not decide either"""
+    if semantic_backup:
+        rep.note("R-BDF-DENSE %s: %s - covered by R-BDF-INTERP (decided)" % (key, why))
+    else:
+        rep.inconc("R-BDF-DENSE", key, why)
+
+
+def r_bdf_dense(rep, f, semantic_backup=False):
     """writer/reader agreement of BDF's per-state dense block: for every order 1..MAX_ORDER the set of slots into which
     BDF::solve copies a backward difference (and which difference it copies there) equals the set of slots BDF::interpolate
     adds up, slot 1+k holding D_(k+1). The guard of the writer and the range of the reader are evaluated over the finite
@@ -966,7 +976,7 @@ def r_bdf_dense(rep, f):
                 other = [q for q in tast.find(st["r"], lambda q: q.get("k") == "Index" and q is not rd[0] and q["e"].get("k") == "Path" and q["e"].get("id") != cont_id)]
                 reader = (lp, st, rd[0], other[0] if other else None)
     if writer is None or reader is None:
-        rep.inconc("R-BDF-DENSE", key, "dense-block writer (%s) / reader (%s) loops not identified" % (writer is not None, reader is not None))
+        _shape_unknown(rep, key, semantic_backup, "dense-block writer (%s) / reader (%s) loops not identified" % (writer is not None, reader is not None))
         return
     wlp, wst, wif, wsrc = writer
     rlp, rst, rrd, rp = reader
@@ -975,7 +985,7 @@ def r_bdf_dense(rep, f):
     hi = next((x["e"] for x in rng.get("fields", []) if x["name"] == "end"), None) if rng.get("k") == "Struct" else None
     max_order = const_of(hi) if hi is not None else None
     if not max_order:
-        rep.inconc("R-BDF-DENSE", key, "writer loop bound is not a constant")
+        _shape_unknown(rep, key, semantic_backup, "writer loop bound is not a constant")
         return
     max_order = int(max_order)
 
@@ -1036,7 +1046,7 @@ def r_bdf_dense(rep, f):
                     if R[sl] != sl - 1:
                         probs.append("order %d: slot %d is weighted with p[%d]" % (order, sl, R[sl]))
     except _NoEval as ex_:
-        rep.inconc("R-BDF-DENSE", key, "index arithmetic not evaluated (%s)" % ex_)
+        _shape_unknown(rep, key, semantic_backup, "index arithmetic not evaluated (%s)" % ex_)
         return
     if probs:
         rep.violation("R-BDF-DENSE", key, "the dense block BDF::solve writes and the one BDF::interpolate reads disagree: %s" % "; ".join(probs[:3]), wif.get("sp"))
